@@ -1,6 +1,8 @@
 import GdcVerif.Gen.JpegLs
 import GdcVerif.Spec.T87
 import GdcVerif.Lemmas.JpegLsT87
+import GdcVerif.Lemmas.JpegLsT87Ctx
+import GdcVerif.Lemmas.JpegLsCtx
 /-!
   C14 — JPEG-LS conforms to ITU-T T.87: parameters and per-sample procedures.
 
@@ -101,6 +103,45 @@ theorem moduloRange_eq_T87 (P : Nat) (N : Int) (h : Admissible P N) (e : Int) :
   moduloRange_eq _ e (by
     have hr : 2 ≤ (traits P N).Range := (JpegLsLemmas.newTraits_wf P N h.1 ⟨h.2.1, h.2.2.2⟩ 64).range_ge
     omega)
+
+/-! ### context update (T.87 A.6, code segments A.12 / A.13) and run-interruption state (A.7.2) -/
+
+/-- (10) `Context.UpdateContext` IS code segments A.12 + A.13 whenever the CharLS-style overflow
+    guard of the code (A or |B| reaching 2^24, not in the standard) does not fire.  `B >> 1` of a
+    negative `B` is the standard's `-((1 - B) >> 1)`; the order of the `C` step and the `B` clamp in
+    A.13 is immaterial. -/
+theorem contextUpdate_eq_T87 (c : Context) (e near reset : Int) (p : T87.Params)
+    (hN : p.NEAR = near) (hR : p.RESET = reset)
+    (hA : c.A + Go.abs e < 16777216)
+    (hB : -16777216 < c.B + e * (2 * near + 1) ∧ c.B + e * (2 * near + 1) < 16777216) :
+    ctxSpec (Context.UpdateContext c e near reset) = T87.contextUpdate p (ctxSpec c) e :=
+  updateContext_eq c e near reset p hN hR hA hB
+
+/-- the guard of (10) is met by every state a scan reaches: with `A ≤ 64·2^16` (the bound the RESET
+    halving maintains for |Errval| ≤ 2^16), `−N < B ≤ 0`, `N ≤ 64` (both from
+    `JpegLsLemmas.updateContext_inv`) and `|Errval·(2·NEAR+1)| ≤ 2^17` the hypotheses hold -/
+theorem contextUpdate_guard_reachable (c : Context) (e near : Int)
+    (hA : 0 ≤ c.A ∧ c.A ≤ 64 * 65536) (hBN : -c.N < c.B ∧ c.B ≤ 0) (hNr : 1 ≤ c.N ∧ c.N ≤ 64)
+    (he : -65536 ≤ e ∧ e ≤ 65536) (hm : -131072 ≤ e * (2 * near + 1) ∧ e * (2 * near + 1) ≤ 131072) :
+    c.A + Go.abs e < 16777216 ∧
+    (-16777216 < c.B + e * (2 * near + 1) ∧ c.B + e * (2 * near + 1) < 16777216) := by
+  generalize e * (2 * near + 1) = m at *
+  unfold Go.abs; split <;> omega
+
+example : ctxSpec (Context.UpdateContext { A := 9, N := 64, B := -5, C := 3 } (-70) 0 64) =
+      T87.contextUpdate (T87.defaults 255 0) { A := 9, B := -5, C := 3, N := 64 } (-70) ∧
+    T87.contextUpdate (T87.defaults 255 0) { A := 9, B := -5, C := 3, N := 64 } (-70) =
+      { A := 39, B := -5, C := 2, N := 33 } := by decide
+
+/-- (11) run-interruption contexts: `RunModeContext.UpdateVariables` = code segment A.23 and
+    `RunModeContext.ComputeMap` = code segment A.21, for all inputs -/
+theorem runInterruption_eq_T87 (c : RunModeContext) (e em k reset : Int) (p : T87.Params) (hR : p.RESET = reset) :
+    riSpec (RunModeContext.UpdateVariables c e em reset) = T87.riUpdate p (riSpec c) e em ∧
+    RunModeContext.ComputeMap c e k = T87.riMap (riSpec c) k e :=
+  ⟨riUpdate_eq c e em reset p hR, riMap_eq c e k⟩
+
+example : riSpec (RunModeContext.UpdateVariables { runInterruptionType := 1, A := 5, N := 64, NN := 3 } (-2) 3 64) =
+    { RItype := 1, A := 3, N := 33, Nn := 2 } := by decide
 
 /-! ### lossless package = near-lossless package at NEAR = 0 (kernel level) -/
 
